@@ -382,7 +382,7 @@ def procCheck (G : GCtx) (pi : PInfo) : Bool :=
   atB G.env.ds (G.iEpi pi) (G.epi pi) &&
   decide (pi.gs2.size ≤ G.S pi) && decide (pi.p.locals.length ≤ pi.gs1.offset) &&
   pi.gs2.constMap.all (fun e => G.consts.contains e) && decide (G.S pi ≤ G.smax) &&
-  okS5 G.pk G.pnames G.xc.impure pi.p.body && pi.p.formals.all isValFormal && pi.p.locals.all isVarDecl &&
+  okS5 G.pk G.pnames G.xc.impure pi.p.body && pi.p.formals.all isVAFormal && pi.p.locals.all isVarDecl &&
   G.procs.all (fun pj =>
     match G.cg.tbl.lookup pi.p.name pj.p.name with
     | .ok sym => decide ((sym.type = .func) ↔ (pj.p.isFunc = true))
@@ -462,7 +462,7 @@ theorem ok_of_checks (G : GCtx) (imgWords : Nat)
        atB G.env.ds (G.iBody pi) (lowerCode G.cg pi.code) = true ∧ atB G.env.ds (G.iEpi pi) (G.epi pi) = true ∧
        pi.gs2.size ≤ G.S pi ∧ pi.p.locals.length ≤ pi.gs1.offset ∧
        (∀ e ∈ pi.gs2.constMap, G.consts.contains e = true) ∧ G.S pi ≤ G.smax ∧
-       okS5 G.pk G.pnames G.xc.impure pi.p.body = true ∧ pi.p.formals.all isValFormal = true ∧ pi.p.locals.all isVarDecl = true) ∧
+       okS5 G.pk G.pnames G.xc.impure pi.p.body = true ∧ pi.p.formals.all isVAFormal = true ∧ pi.p.locals.all isVarDecl = true) ∧
       ((∀ pj ∈ G.procs, (match G.cg.tbl.lookup pi.p.name pj.p.name with
           | .ok sym => decide ((sym.type = .func) ↔ (pj.p.isFunc = true))
           | .error _ => false) = true) ∧
@@ -532,7 +532,7 @@ theorem ok_of_checks (G : GCtx) (imgWords : Nat)
     smax_ok := fun pi hpi => (hpc pi hpi).1.2.2.2.2.2.2.2.2.2.1
     body_ok := fun pi hpi => (hpc pi hpi).1.2.2.2.2.2.2.2.2.2.2.1
     pure_ok := hpure
-    formals_val := fun pi hpi => (hpc pi hpi).1.2.2.2.2.2.2.2.2.2.2.2.1
+    formals_ok := fun pi hpi => (hpc pi hpi).1.2.2.2.2.2.2.2.2.2.2.2.1
     locals_var := fun pi hpi => (hpc pi hpi).1.2.2.2.2.2.2.2.2.2.2.2.2
     resolve := resolve
     callee_sym := by
@@ -982,9 +982,8 @@ theorem v2_core (G : GCtx) (ok : G.OK) (fuel : Nat) (mem0 : Mem) (st0 : X.St) (h
   have haddr := ok.addr_lt _ _ _ t3
   have hlodef := ok.lo_def
   have := hcs pm hpm [] st0 (BitVec.ofNat 32 (G.env.addr (iStub + 3))) 0 mem0 G.spv (iStub + 3) .plain "_exit"
-    hg0 hm1 (fun j hj => by simp at hj) (by rw [hdepth]; omega) (by rw [hpo]; simp) (by omega) t3
+    hg0 hm1 (fun v hv => by simp at hv) (fun j hj => by simp at hj) (by rw [hdepth]; omega) (by rw [hpo]; simp) (by omega) t3
     (toNat_ofNat_lt _ haddr).symm
-  simp only [List.map_nil] at this
   cases hx : X.callUser fuel G.xc pm.p [] st0 with
   | undef w => trivial
   | exit code s =>
@@ -1383,7 +1382,7 @@ def isV2 (P : X.Program) : Bool :=
   let gn := P.globals.map X.Decl.name
   let pn := P.procs.map (·.name)
   P.globals.all isGDecl &&
-  P.procs.all (fun p => p.formals.all isValFormal && p.locals.all isVarDecl && okS4 pn p.body &&
+  P.procs.all (fun p => p.formals.all isVAFormal && p.locals.all isVarDecl && okS4 pn p.body &&
     (p.formals.map X.Formal.name ++ p.locals.map X.Decl.name).all (fun n => !gn.contains n && !pn.contains n)) &&
   (match P.procs.find? (·.name == "main") with
    | some m => !m.isFunc && m.formals.isEmpty
@@ -1428,7 +1427,7 @@ def isV3 (P : X.Program) : Bool :=
   let gn := P.globals.map X.Decl.name
   let pn := P.procs.map (·.name)
   P.globals.all isGDecl &&
-  P.procs.all (fun p => p.formals.all isValFormal && p.locals.all isVarDecl && okS5 true pn (X.impureProcs P) p.body &&
+  P.procs.all (fun p => p.formals.all isVAFormal && p.locals.all isVarDecl && okS5 true pn (X.impureProcs P) p.body &&
     (p.formals.map X.Formal.name ++ p.locals.map X.Decl.name).all (fun n => !gn.contains n && !pn.contains n)) &&
   (match P.procs.find? (·.name == "main") with
    | some m => !m.isFunc && m.formals.isEmpty
